@@ -177,6 +177,70 @@ def set_algebra_history(ctx, srv, label='setalg'):
     return n
 
 
+def lifecycle_history(ctx, srv, label='lifecycles', zsets=False):
+    """A key's successive lives: a collection is created and read through EVERY read command (whatever a read may leave behind in
+    a cache or an index), ceases to exist in every way a key can (its last elements removed by each removing command, DEL, a
+    deadline, RENAME away, overwritten, FLUSHDB), is read again, is created again under the same name with OTHER content — also
+    as another type — and read again: nothing of an earlier life may show in a later one."""
+    import time as _t
+    K = b'life'
+    kinds = {
+        'list': dict(mk=[[b'RPUSH', K, b'a', b'a', b'b']], mk2=[[b'LPUSH', K, b'x', b'y']],
+                     reads=[[b'LRANGE', K, b'0', b'-1'], [b'LLEN', K], [b'LINDEX', K, b'0'], [b'LINDEX', K, b'-1'], [b'LRANGE', K, b'1', b'5']],
+                     ends=[[[b'LPOP', K]] * 3, [[b'RPOP', K]] * 3, [[b'LTRIM', K, b'1', b'0']], [[b'LREM', K, b'0', b'a'], [b'LREM', K, b'1', b'b']]]),
+        'set': dict(mk=[[b'SADD', K, b'a', b'b', b'c']], mk2=[[b'SADD', K, b'x', b'y']],
+                    reads=[[b'SRANDMEMBER', K], [b'SRANDMEMBER', K, b'2'], [b'SRANDMEMBER', K, b'-4'], [b'SMEMBERS', K], [b'SCARD', K], [b'SISMEMBER', K, b'a'],
+                           [b'SISMEMBER', K, b'x'], [b'SUNION', K], [b'SINTER', K, K], [b'SDIFF', K, b'nokey'], [b'SSCAN', K, b'0']],
+                    ends=[[[b'SREM', K, b'a', b'b', b'c']], [[b'SREM', K, b'a'], [b'SREM', K, b'c', b'b']], [[b'SPOP', K, b'3']], [[b'SPOP', K]] * 3]),
+        'hash': dict(mk=[[b'HSET', K, b'f', b'1', b'g', b'2']], mk2=[[b'HSET', K, b'x', b'9']],
+                     reads=[[b'HGETALL', K], [b'HLEN', K], [b'HGET', K, b'f'], [b'HGET', K, b'x'], [b'HKEYS', K], [b'HVALS', K], [b'HEXISTS', K, b'f'], [b'HMGET', K, b'f', b'x'],
+                            [b'HSCAN', K, b'0']],
+                     ends=[[[b'HDEL', K, b'f', b'g']], [[b'HDEL', K, b'g'], [b'HDEL', K, b'f']]]),
+        'zset': dict(mk=[[b'ZADD', K, b'1', b'a', b'2', b'b']], mk2=[[b'ZADD', K, b'5', b'x', b'1', b'y']],
+                     reads=[[b'ZRANGE', K, b'0', b'-1', b'WITHSCORES'], [b'ZCARD', K], [b'ZSCORE', K, b'a'], [b'ZSCORE', K, b'x'], [b'ZRANK', K, b'b'], [b'ZREVRANK', K, b'y'],
+                            [b'ZCOUNT', K, b'-inf', b'+inf'], [b'ZRANGEBYSCORE', K, b'0', b'9'], [b'ZREVRANGE', K, b'0', b'0'], [b'ZSCAN', K, b'0']],
+                     ends=[[[b'ZREM', K, b'a', b'b']], [[b'ZPOPMIN', K, b'2']], [[b'ZPOPMAX', K], [b'ZPOPMIN', K]]]),
+    }
+    common = [[[b'DEL', K]], [[b'PEXPIRE', K, b'40'], 'sleep'], [[b'RENAME', K, b'elsewhere']], [[b'SET', K, b'v'], [b'DEL', K]], [[b'FLUSHDB']], [[b'PEXPIRE', K, b'0']],
+              [[b'RENAME', K, b'elsewhere'], [b'RENAME', b'elsewhere', K], [b'DEL', K]]]
+    types = ['zset'] if zsets else ['list', 'set', 'hash']
+    s = fresh_session(ctx, srv, label)
+    n = 0
+    try:
+        cid = s.open()
+        for ty in types:
+            k = kinds[ty]
+            others = [kinds[o]['mk2'] for o in kinds if o != ty]
+            for ei, end in enumerate(k['ends'] + common):
+                for again in ([k['mk2']] + ([others[(ei + ctx.seed) % len(others)]] if ctx.quick else others)):
+                    cid = ensure_conn(s, cid)
+                    s.cmd(cid, [b'FLUSHALL'])
+                    s.cmd(cid, [b'SET', b'bystander', b'1'])
+                    for a in k['mk'] + k['reads']:
+                        s.cmd(cid, a)
+                    for a in end:
+                        if a == 'sleep':
+                            _t.sleep(0.06)
+                        else:
+                            s.cmd(cid, a)
+                    for a in [[b'EXISTS', K], [b'TYPE', K]] + k['reads'] + again + [[b'TYPE', K]] + k['reads']:
+                        s.cmd(cid, a)
+                    for o in kinds:
+                        if again == kinds[o]['mk2'] and o != ty:
+                            for a in kinds[o]['reads']:
+                                s.cmd(cid, a)
+                    n += 1
+        cid = ensure_conn(s, cid)
+        dump_db(s, cid)
+    except ServerDied:
+        pass
+    s.close_all()
+    ctx.validate(s.trace, label=label)
+    if not srv.alive():
+        srv.restart()
+    return n
+
+
 def list_shape_history(ctx, srv, label='listshapes'):
     """Commands whose result depends on WHERE equal elements sit: LREM with every count from -3 to 3 (and far beyond) on every
     list over {x, y} up to length 5 (adjacent repetitions, runs at either end, no occurrence at all), LRANGE / LINDEX / LSET /
